@@ -1314,6 +1314,7 @@ func (x *Exec) execSelect(st *State, s *ast.SelectStmt, label string) *flow {
 					if c := x.recvContract(ue.X); c != nil {
 						x.applyRecv(cst, ue.X, c, false, cm.Pos())
 					}
+					x.noteCtxDone(cst, ue.X)
 				}
 			case *ast.SendStmt:
 				x.ev(cst, cm.Value)
@@ -1874,4 +1875,26 @@ func (x *Exec) boxFuncsFor(srcSort string, got any, ts string) (string, string, 
 		x.vc.termFact(fmt.Sprintf("(= (%s %s) 0)", tag, x.vc.nilTerm(ts)))
 	}
 	return box, unbox, id
+}
+
+// noteCtxDone: a completed receive from <ctx>.Done() means that context is done from here on (ghost set G:$ctxdone);
+// context.Context.Err() is non-nil for a context in that set (libModel) and unconstrained otherwise.
+func (x *Exec) noteCtxDone(st *State, ch ast.Expr) {
+	call, ok := unparen(ch).(*ast.CallExpr)
+	if !ok {
+		return
+	}
+	sel, ok := unparen(call.Fun).(*ast.SelectorExpr)
+	if !ok || sel.Sel.Name != "Done" || len(call.Args) != 0 {
+		return
+	}
+	t := x.typeOf(sel.X)
+	if t == nil || types.TypeString(t, nil) != "context.Context" {
+		return
+	}
+	c := x.ev(st, sel.X)
+	setSort := fmt.Sprintf("(Array %s Bool)", c.Sort)
+	cur := x.lookupHeap(st, "G:$ctxdone", setSort)
+	nv := Val{T: fmt.Sprintf("(store %s %s true)", cur.T, c.T), Sort: setSort}
+	st.heap["G:$ctxdone"] = x.nameAlways("ctxdone", nv)
 }
